@@ -94,3 +94,26 @@ func c05load(g *Gen, i int, path string, files map[string]string, names []string
 }
 
 func c02nresults(s *types.Signature) int { return len(s.Results) }
+
+func c12load(g *Gen, i int, tags []string, path string, files map[string]string, names []string, deps map[string]string) (types.Universe, error) {
+	dir := filepath.Join(os.Getenv("VERIF_WORK"), fmt.Sprintf("c12m%d", i))
+	defer os.RemoveAll(dir)
+	os.MkdirAll(dir, 0755)
+	os.WriteFile(filepath.Join(dir, "go.mod"), []byte("module ex.test\n\ngo 1.20\n"), 0644)
+	write := func(p, name, src string) {
+		d := filepath.Join(dir, strings.TrimPrefix(p, "ex.test/"))
+		os.MkdirAll(d, 0755)
+		os.WriteFile(filepath.Join(d, name), []byte(src), 0644)
+	}
+	for _, n := range names {
+		write(path, n, files[n])
+	}
+	for dp, src := range deps {
+		write(dp, "dep.go", src)
+	}
+	p := parser.NewWithOptions(parser.Options{BuildTags: tags})
+	if err := p.LoadPackagesWithConfigForTesting(&packages.Config{Dir: dir, Env: append(os.Environ(), "GOFLAGS=-mod=mod", "GOWORK=off")}, path); err != nil {
+		return nil, err
+	}
+	return p.NewUniverse()
+}
